@@ -51,8 +51,8 @@ CLAIMED = {
   technique="symbolic execution of go/ssa (filter + transport wrapper + net/http/net/url from source) + SMT (QF_BV)",
   ref="9/C02"),
  "C03": dict(
-  text="Bounded symbolic model checking of the dispatcher's real ServeHTTP against scripted collaborators: the request is forwarded to exactly the endpoint the picker returned (address and transport), and a failed pick is answered 503 with nothing forwarded.",
-  note="PARTIAL: only the forward-to-picked wiring and the 503 path are decided so far (skeleton harness, every collaborator answer symbolic). Not yet encoded: the selection predicate of Pop over symbolic endpoint maps, syncEndpoints, the probe start/stop state machine; true concurrency of probes/updates/requests is outside the technique.",
+  text="Bounded symbolic model checking of the real endpoint selection (endpointPickStrategy.Pop), of the real endpoint synchronisation (syncEndpoints, addOrUpdateEndpoint, EnsureGatewayHealthCheck, with sync.Map/context/goset as reference models or from source) and of the dispatcher's real ServeHTTP against scripted collaborators: only an endpoint that is named by the policy, present in the current server list, enabled and healthy is picked; the map follows the latest server list; disabled endpoints have no probe loop; the request is forwarded to exactly the picked endpoint; a failed pick is answered 503 with nothing forwarded.",
+  note="Decided: the selection predicate of the real Pop from an arbitrary endpoint map and upstream list (<= 3 endpoints, names over a 3-letter alphabet, symbolic Disabled/Healthy); the real syncEndpoints/addOrUpdateEndpoint/EnsureGatewayHealthCheck over two successive server lists (key set, disabled flags, cancellation of removed endpoints, probe registration, context derivation; transports stubbed); forward-to-picked wiring and the 503 path of the dispatcher (skeleton). Outside: true concurrency of probes, spec updates and requests (the check-then-use window in Pop is inherent), probe HTTP behaviour, the probe goroutine bodies.",
   technique="symbolic execution of go/ssa (skeleton mode: real handler, symbolic fakes) + SMT",
   ref="9/C03"),
  "C04": dict(
@@ -66,8 +66,8 @@ CLAIMED = {
   technique="symbolic execution of go/ssa + SMT, inductive step with ghost bookkeeping",
   ref="9/C05"),
  "C15": dict(
-  text="Bounded symbolic model checking of the cancellation wiring in the dispatcher's real ServeHTTP: the watcher goroutine (run inline) cancels exactly the proxied request when the picked endpoint's context has ended, and not otherwise.",
-  note="PARTIAL: wiring only, with a reference model of package context. Not decided: promptness, streaming, net/http behaviour on cancellation, manager/ClusterInfo.Stop/syncEndpoints removal paths (not encoded yet).",
+  text="Bounded symbolic model checking of the removal paths (manager.DeleteWithStop/ClusterInfo.Stop, syncEndpoints removal branch, context derivation in addOrUpdateEndpoint/EnsureGatewayHealthCheck) and of the cancellation wiring in the dispatcher's real ServeHTTP (the watcher goroutine, run inline, cancels exactly the proxied request when the picked endpoint's context has ended, and not otherwise).",
+  note="Decided (sequential and wiring facts): cluster deletion through the real manager (names stop resolving, cluster and endpoint contexts cancelled, the other cluster untouched and still pickable), endpoint removal through the real syncEndpoints (context cancelled, no longer picked, sibling untouched), and the dispatcher's watcher goroutine cancelling exactly the proxied request when the endpoint context has ended. Package context is a reference model. Not decided: promptness, streaming responses, net/http behaviour on cancellation, goroutine scheduling - the run-time half of the statement cannot be encoded.",
   technique="symbolic execution of go/ssa (skeleton mode) + SMT",
   ref="9/C15"),
  "C18": dict(
